@@ -130,6 +130,32 @@ fn run_alt(case: &Case, order: u8, ctx: &Ctx, info: &mut CaseInfo) -> Result<(),
         }
         let _ = std::fs::remove_dir_all(&sdir);
     }
+    // every listed pack that is present is covered by check(): damage in either alternative, with
+    // contents of that id read BEFORE the check on the same container (a pack opened for reading
+    // must not stand in for its alternative)
+    for victim in ["lo.jbkc", "hi.jbkc"] {
+        let sdir = ctx.subdir("c11-alt-damaged");
+        copy_dir(&base, &sdir);
+        let mut bytes = std::fs::read(sdir.join(victim)).unwrap();
+        let at = bytes.len() / 2;
+        bytes[at] ^= 0x40;
+        std::fs::write(sdir.join(victim), &bytes).unwrap();
+        let c = match jbk::reader::Container::new(sdir.join("a.jbk")) {
+            Ok(c) => c,
+            Err(e) => fail!("open-with-missing-pack", "alternative packs, {victim} damaged: Container::new: {e}"),
+        };
+        for (id, n) in [(1u16, 2u32), (2, 3), (3, 1)] {
+            for k in 0..n {
+                let _ = read_content(&c, jbk::ContentAddress::new(id.into(), k.into()));
+            }
+        }
+        match c.check() {
+            Ok(true) => fail!("check-misses-damaged-present-pack", "alternative packs: byte {at} of {victim} (declared under id 2, present) was altered and Container::check, called after contents of id 2 were read, answers Ok(true)"),
+            _ => {}
+        }
+        evals += 1;
+        let _ = std::fs::remove_dir_all(&sdir);
+    }
     info.class("alternative-packs-same-id");
     info.class(format!("comp:{}", case.comp.name()));
     info.evals = evals;
